@@ -140,6 +140,26 @@ CHECKS = {
         'UTC-aware bounds; after+limit without before only weakly checked '
         '(unspecified by the property).',
     ),
+    'C20': (
+        'pipeline-sim', 'exploration',
+        'exhaustive calendar grid + Hypothesis instants for schedule._delay '
+        'vs day-by-day reference arithmetic; generated engines with timer '
+        'events run on a harness-owned reactor clock, oracle over the log of '
+        'firings',
+        'Part grid enumerates dom 1..31 and dow 0..6 x times of day x the '
+        'days of 2023-2028 (quick: around month ends) x 3 instants per day '
+        'and checks that _delay does not raise, designates a moment matching '
+        'the specification, not later than the next matching moment and not '
+        'older than the latest one; part random adds instants with '
+        'microseconds 2000-2100, date and boot events. Part history runs '
+        'periodics/defer/dispatch for generated engines with events over up '
+        'to ten weeks of harness time: each firing queues exactly the known '
+        'targets (__all__ for analyses) and lies within [M-301 s, M+1 d] of '
+        'a matching moment M, boot events fire at boot and once, every '
+        'matching moment while up has a firing, the queue holds a node once.',
+        'recurrence after the first firing is a listed known finding; '
+        'liveness only in bounded, harness-scheduled form.',
+    ),
 }
 
 NOT_YET = 'check not built yet in this session (planned, see DESIGN.md section 4)'
